@@ -52,8 +52,22 @@ class Interp:
         self.asserts = []       # (guard, cond, text): `assert` statements of the code
         self.no_wrap = []       # (guard, cond, text): conditions under which BV64 == Python int semantics
         self.raises = []        # (guard, cond, text): conditions that make Python raise (negative shift count)
+        self.loops = []         # innermost-last loop frames: {'brk': condition under which the loop was left by `break`}
+        self.returns = []       # (condition, value)
 
     # ---- expressions ---------------------------------------------------------------------------
+    @staticmethod
+    def _truth(v):
+        if z3.is_bool(v):
+            return v
+        if isinstance(v, bool):
+            return z3.BoolVal(v)
+        if z3.is_bv(v):
+            return v != bv(0)
+        if v is None:
+            return z3.BoolVal(False)
+        raise HarnessError('truth value of a non-scalar')
+
     def ev(self, n, env, guard):
         if isinstance(n, ast.Constant):
             if n.value is None or isinstance(n.value, bool):
@@ -80,6 +94,16 @@ class Interp:
                 return a & b
             if isinstance(n.op, ast.BitOr):
                 return a | b
+            if isinstance(n.op, ast.BitXor):
+                return a ^ b
+            if isinstance(n.op, ast.Mult):
+                # exact while the mathematical product stays below 2^63 (checked as a side obligation)
+                self.no_wrap.append((guard, z3.And(z3.BVMulNoOverflow(a, b, True), z3.BVMulNoUnderflow(a, b)),
+                                     f'{ast.unparse(n)} may overflow 64 bits'))
+                return a * b
+            if isinstance(n.op, (ast.FloorDiv, ast.Mod)) and z3.is_bv_value(b) and b.as_signed_long() > 0:
+                self.no_wrap.append((guard, a >= 0, f'{ast.unparse(n)} on a negative value'))
+                return z3.UDiv(a, b) if isinstance(n.op, ast.FloorDiv) else z3.URem(a, b)
             if isinstance(n.op, ast.LShift):
                 self.raises.append((guard, b < 0, f'negative shift count in {ast.unparse(n)}'))
                 # a << b stays below 2^63 when a < 2^(63-b); the code only shifts the constant 1
@@ -94,9 +118,9 @@ class Interp:
             a = self.ev(n.left, env, guard)
             b = self.ev(n.comparators[0], env, guard)
             op = n.ops[0]
-            if isinstance(op, ast.Is):
+            if isinstance(op, (ast.Is, ast.IsNot)):
                 if b is None:
-                    return a is None
+                    return (a is None) == isinstance(op, ast.Is)
                 raise HarnessError(f'untranslatable `is` in {ast.unparse(n)}')
             if z3.is_bv(a) and z3.is_bv(b):
                 if isinstance(op, ast.Lt):
@@ -109,7 +133,28 @@ class Interp:
                     return a >= b
                 if isinstance(op, ast.Eq):
                     return a == b
+                if isinstance(op, ast.NotEq):
+                    return a != b
             raise HarnessError(f'untranslatable comparison {ast.unparse(n)}')
+        if isinstance(n, ast.BoolOp):
+            vals = [self._truth(self.ev(v, env, guard)) for v in n.values]
+            return (z3.And if isinstance(n.op, ast.And) else z3.Or)(*vals)
+        if isinstance(n, ast.UnaryOp):
+            v = self.ev(n.operand, env, guard)
+            if isinstance(n.op, ast.Not):
+                return z3.Not(self._truth(v))
+            if isinstance(n.op, ast.USub) and z3.is_bv(v):
+                return -v
+            if isinstance(n.op, ast.Invert) and z3.is_bv(v):
+                return ~v
+            raise HarnessError(f'untranslatable unary operator in {ast.unparse(n)}')
+        if isinstance(n, ast.IfExp):
+            c = self._truth(self.ev(n.test, env, guard))
+            a = self.ev(n.body, env, guard)
+            b = self.ev(n.orelse, env, guard)
+            if (z3.is_bv(a) and z3.is_bv(b)) or (z3.is_bool(a) and z3.is_bool(b)):
+                return z3.If(c, a, b)
+            raise HarnessError(f'untranslatable conditional expression {ast.unparse(n)}')
         if isinstance(n, ast.Subscript):
             m = self.ev(n.value, env, guard)
             k = self.ev(n.slice, env, guard)
@@ -123,6 +168,36 @@ class Interp:
                 return v != bv(0) if z3.is_bv(v) else bool(v)
             if isinstance(f, ast.Name) and f.id == 'str':
                 return '<str>'
+            if isinstance(f, ast.Attribute) and f.attr == 'bit_length' and not n.args:
+                v = self.ev(f.value, env, guard)
+                if not z3.is_bv(v):
+                    raise HarnessError(f'bit_length of a non-integer in {ast.unparse(n)}')
+                self.no_wrap.append((guard, v >= 0, f'{ast.unparse(n)} of a negative value'))
+                r = bv(0)
+                for k in range(W):                      # the highest set bit wins
+                    r = z3.If(z3.Extract(k, k, v) == 1, bv(k + 1), r)
+                return r
+            if isinstance(f, ast.Name) and f.id == 'range' and 1 <= len(n.args) <= 3:
+                a = [self.ev(x, env, guard) for x in n.args]
+                if not all(z3.is_bv_value(x) for x in a):
+                    raise HarnessError(f'range with symbolic bounds in {ast.unparse(n)}')
+                return SymList([(z3.BoolVal(True), bv(i)) for i in range(*[x.as_signed_long() for x in a])])
+            if isinstance(f, ast.Name) and f.id == 'int' and len(n.args) == 1:
+                v = self.ev(n.args[0], env, guard)
+                if z3.is_bv(v):
+                    return v
+                if z3.is_bool(v):
+                    return z3.If(v, bv(1), bv(0))
+                if isinstance(v, bool):
+                    return bv(int(v))
+            if isinstance(f, ast.Name) and f.id in ('min', 'max') and len(n.args) == 2:
+                a, b = (self.ev(x, env, guard) for x in n.args)
+                if z3.is_bv(a) and z3.is_bv(b):
+                    return z3.If((a < b) if f.id == 'min' else (a > b), a, b)
+            if isinstance(f, ast.Attribute) and f.attr in ('keys', 'values') and not n.args:
+                m = self.ev(f.value, env, guard)
+                if isinstance(m, SymMapping):
+                    return SymList([(z3.BoolVal(True), x) for x in (m.names if f.attr == 'keys' else m.idxs)])
             if isinstance(f, ast.Attribute) and f.attr == 'items' and not n.args:
                 m = self.ev(f.value, env, guard)
                 if isinstance(m, SymMapping):
@@ -133,31 +208,47 @@ class Interp:
     # ---- statements ----------------------------------------------------------------------------
     def assign(self, env, name, val, guard):
         old = env.get(name)
-        if z3.is_bv(val) and z3.is_bv(old) and not z3.is_true(guard):
-            val = z3.If(guard, val, old)
-        elif z3.is_bool(val) and z3.is_bool(old) and not z3.is_true(guard):
-            val = z3.If(guard, val, old)
+        if not z3.is_true(guard):
+            if z3.is_bv(val) and z3.is_bv(old):
+                val = z3.If(guard, val, old)
+            elif (z3.is_bool(val) or isinstance(val, bool)) and (z3.is_bool(old) or isinstance(old, bool)):
+                val = z3.If(guard, val, old)
+            elif old is not None and val is not old:
+                raise HarnessError(f'conditional assignment of a non-scalar to {name}')
         env[name] = val
 
-    def run(self, body, env, guard):
-        """Returns the returned value (functions here return once, at the end or in a leading `if ... is None`)."""
+    def run(self, body, env, live):
+        """Executes `body` under the path condition `live` (z3 Bool).  Returns the condition under which control
+        reaches the end of the block.  `break` / `continue` move their condition into the innermost loop frame;
+        `return` records (condition, value) in self.returns."""
         for st in body:
+            live = z3.simplify(live) if z3.is_expr(live) else z3.BoolVal(bool(live))
+            if z3.is_false(live):
+                break
             if isinstance(st, ast.Expr) and isinstance(st.value, ast.Constant):
                 continue
-            if isinstance(st, ast.Assign) and len(st.targets) == 1 and isinstance(st.targets[0], ast.Name):
-                self.assign(env, st.targets[0].id, self.ev(st.value, env, guard), guard)
+            if isinstance(st, ast.Pass):
+                continue
+            if isinstance(st, (ast.Assign, ast.AnnAssign)) and isinstance(getattr(st, 'target', None) or st.targets[0], ast.Name) \
+                    and (isinstance(st, ast.AnnAssign) or len(st.targets) == 1):
+                tgt = st.target if isinstance(st, ast.AnnAssign) else st.targets[0]
+                if st.value is not None:
+                    self.assign(env, tgt.id, self.ev(st.value, env, live), live)
             elif isinstance(st, ast.AugAssign) and isinstance(st.target, ast.Name):
                 cur = ast.BinOp(left=ast.Name(id=st.target.id, ctx=ast.Load()), op=st.op, right=st.value)
-                self.assign(env, st.target.id, self.ev(ast.copy_location(cur, st), env, guard), guard)
+                self.assign(env, st.target.id, self.ev(ast.copy_location(cur, st), env, live), live)
             elif isinstance(st, ast.Assert):
-                c = self.ev(st.test, env, guard)
-                self.asserts.append((guard, c, ast.unparse(st.test)))
-                guard = z3.And(guard, c) if not isinstance(c, bool) else guard
+                c = self.ev(st.test, env, live)
+                self.asserts.append((live, c, ast.unparse(st.test)))
+                if not isinstance(c, bool):
+                    live = z3.And(live, c)
             elif isinstance(st, ast.For) and not st.orelse:
-                seq = self.ev(st.iter, env, guard)
+                seq = self.ev(st.iter, env, live)
                 if not isinstance(seq, SymList):
                     raise HarnessError(f'cannot iterate {ast.unparse(st.iter)}')
-                for g, el in seq.items:
+                frame = {'brk': z3.BoolVal(False)}
+                self.loops.append(frame)
+                for g, el in list(seq.items):
                     if isinstance(st.target, ast.Name):
                         env[st.target.id] = el
                     elif isinstance(st.target, ast.Tuple) and all(isinstance(t, ast.Name) for t in st.target.elts):
@@ -165,31 +256,44 @@ class Interp:
                             env[t.id] = v
                     else:
                         raise HarnessError('untranslatable loop target')
-                    r = self.run(st.body, env, z3.And(guard, g))
-                    if r is not None:
-                        raise HarnessError('return inside loop not supported')
-            elif isinstance(st, ast.If) and not st.orelse:
-                c = self.ev(st.test, env, guard)
-                if isinstance(c, bool):
-                    if c:
-                        r = self.run(st.body, env, guard)
-                        if r is not None:
-                            return r
+                    frame['cont'] = z3.BoolVal(False)
+                    self.run(st.body, env, z3.And(live, z3.Not(frame['brk']), g))
+                self.loops.pop()
+            elif isinstance(st, ast.If):
+                c = self.ev(st.test, env, live)
+                if isinstance(c, SymList):
+                    raise HarnessError('truth value of a symbolic list')
+                if z3.is_bv(c):
+                    c = c != bv(0)
+                if isinstance(c, bool) or c is None:
+                    live = self.run(st.body if c else st.orelse, env, live)
                 else:
-                    r = self.run(st.body, env, z3.And(guard, c))
-                    if r is not None:
-                        raise HarnessError('conditional return on a symbolic condition not supported')
+                    a = self.run(st.body, env, z3.And(live, c))
+                    b = self.run(st.orelse, env, z3.And(live, z3.Not(c)))
+                    live = z3.Or(a, b)
             elif (isinstance(st, ast.Expr) and isinstance(st.value, ast.Call) and isinstance(st.value.func, ast.Attribute)
                   and st.value.func.attr == 'append' and isinstance(st.value.func.value, ast.Name)):
                 lst = env[st.value.func.value.id]
                 if not isinstance(lst, SymList):
                     raise HarnessError('append on a non-list')
-                lst.items.append((guard, self.ev(st.value.args[0], env, guard)))
+                lst.items.append((live, self.ev(st.value.args[0], env, live)))
+            elif isinstance(st, ast.Break):
+                if not self.loops:
+                    raise HarnessError('break outside a loop')
+                self.loops[-1]['brk'] = z3.Or(self.loops[-1]['brk'], live)
+                live = z3.BoolVal(False)
+            elif isinstance(st, ast.Continue):
+                if not self.loops:
+                    raise HarnessError('continue outside a loop')
+                live = z3.BoolVal(False)
             elif isinstance(st, ast.Return):
-                return ('ret', self.ev(st.value, env, guard) if st.value is not None else None)
+                if self.loops:
+                    raise HarnessError('return inside a loop not supported')
+                self.returns.append((live, self.ev(st.value, env, live) if st.value is not None else None))
+                live = z3.BoolVal(False)
             else:
                 raise HarnessError(f'untranslatable statement {ast.unparse(st)[:80]}')
-        return None
+        return live
 
 
 def load(name):
@@ -204,11 +308,23 @@ def load(name):
 
 
 def call(interp, node, args):
+    """Run a function body; returns its value.  Several `return`s are merged with ite when the values are bit-vectors
+    or booleans; otherwise exactly one return may be reachable."""
     env = {a.arg: v for a, v in zip(node.args.args, args)}
-    r = interp.run(node.body, env, z3.BoolVal(True))
-    if r is None:
+    interp.loops, interp.returns = [], []
+    interp.run(node.body, env, z3.BoolVal(True))
+    rets = [(g, v) for g, v in interp.returns if not z3.is_false(z3.simplify(g))]
+    interp.returns = []
+    if not rets:
         return None
-    return r[1]
+    if len(rets) == 1:
+        return rets[0][1]
+    val = rets[-1][1]
+    for g, v in reversed(rets[:-1]):
+        if not ((z3.is_bv(v) and z3.is_bv(val)) or (z3.is_bool(v) and z3.is_bool(val))):
+            raise HarnessError('returns of different non-scalar values on symbolic conditions')
+        val = z3.If(g, v, val)
+    return val
 
 
 # ------------------------------------------------------------------------------------------------
